@@ -551,6 +551,65 @@ func harnessPush(c *core.Ctx, reverse bool) (string, error) {
 // checkStdoutWriters: who may write to the process's standard output - only the stage that writes the results
 // there. A diagnostic printed to stdout (through os.Stdout or fmt.Print*) by a reader, worker or entry point lands
 // among, or in front of, the result bytes.
+// stdoutAllowed: the function is one of the result writers, or an unexported helper all of whose call sites lie in
+// functions that are (a writer's own helper writes on the writer's behalf).
+func stdoutAllowed(p *progFacts, base map[string]bool, f *ssa.Function, depth int) bool {
+	if base[fnKey(f)] {
+		return true
+	}
+	if depth > 3 || f.Object() == nil || f.Object().Exported() {
+		return false
+	}
+	sites := p.callers[f]
+	if len(sites) == 0 {
+		return false
+	}
+	for _, s := range sites {
+		if !stdoutAllowed(p, base, topFunc(s.Parent()), depth+1) {
+			return false
+		}
+	}
+	return true
+}
+
+// onlyReturned: the loaded value reaches nothing but return instructions (through phis and interface conversions).
+func onlyReturned(v ssa.Value) bool {
+	seen := map[ssa.Value]bool{}
+	var walk func(v ssa.Value) bool
+	walk = func(v ssa.Value) bool {
+		if seen[v] {
+			return true
+		}
+		seen[v] = true
+		refs := v.Referrers()
+		if refs == nil || len(*refs) == 0 {
+			return false
+		}
+		for _, r := range *refs {
+			switch x := r.(type) {
+			case *ssa.Return:
+			case *ssa.Phi:
+				if !walk(x) {
+					return false
+				}
+			case *ssa.MakeInterface:
+				if !walk(x) {
+					return false
+				}
+			case *ssa.ChangeInterface:
+				if !walk(x) {
+					return false
+				}
+			case *ssa.DebugRef:
+			default:
+				return false
+			}
+		}
+		return true
+	}
+	return walk(v)
+}
+
 func checkStdoutWriters(c *core.Ctx, p *progFacts, rule string) {
 	allowed := map[string]bool{"sam." + currentName(c, "pkg/sam", "writePairwiseAlignment"): true, "gfio." + currentName(c, "pkg/gfio", "OpenOut"): true}
 	var bad []string
@@ -586,7 +645,10 @@ func checkStdoutWriters(c *core.Ctx, p *progFacts, rule string) {
 					continue
 				}
 				nref++
-				if !allowed[fnKey(topFunc(f))] {
+				if u, ok := ins.(*ssa.UnOp); ok && onlyReturned(u) {
+					continue // the function hands the stream to its caller as the selected sink; it writes nothing itself
+				}
+				if !stdoutAllowed(p, allowed, topFunc(f), 0) {
 					bad = append(bad, c.PosStr(ins.Pos())+": "+fnKey(topFunc(f))+" uses "+what+"; only the result writers may write to standard output (diagnostics go to os.Stderr)")
 					bpos = ins.Pos()
 				}
